@@ -230,13 +230,24 @@ package rel
 //@   requires[C04] shape: (len(leftOutput) == 0 || len(rightOutput) == 0)
 //@       && (len(leftOutput) == 0 ? subProj(rightOutput, rightKey) : subProj(leftOutput, leftKey))
 //@   ensures width: result != nil && pwidth(result) == len(leftOutput) + len(rightOutput)
-//@ func (*positionalRelation).JoinIfCommonExist(r; r2, leftKey, rightKey, leftOutput, rightOutput)
+// groupBy (lazily cached index of r on the key p): thin ASSUMED contract — it exists so that its calls are recorded for
+// the `pair` clause below; nothing is promised about the index.
+//@ func (*positionalRelation).groupBy(r; p)
 //@   tags C04
 //@   trusted
+// JoinIfCommonExist is no longer `trusted`: its body is executed symbolically for ONE clause, `pair` — the operand that is
+// indexed (groupBy) is indexed on ITS OWN key and the other operand is probed with its own key, whichever way the
+// size test swaps them (a swap of the relations without the keys fails it). `width` and the implicit safety obligations
+// of the body rest on the frozen iterator and on the package variables truePosRel/falsePosRel, which have no contract:
+// they are withdrawn (/verif/unclaimed.json), i.e. `width` stays ASSUMED exactly as it was under `trusted`.
+//@ func (*positionalRelation).JoinIfCommonExist(r; r2, leftKey, rightKey, leftOutput, rightOutput)
+//@   tags C04
 //@   assigns fresh-only
 //@   modifies rel.positionalRelation, rel.positionalRelationMetadata
 //@   requires[C04] shape: len(leftOutput) == 0 && len(rightOutput) == 0
 //@   ensures width: result != nil && pwidth(result) == len(leftOutput) + len(rightOutput)
+//@   ensures[C04] pair: (lastcall("(*rel.positionalRelation).groupBy", 0) == r && lastcall("(*rel.positionalRelation).groupBy", 1) == leftKey) || (lastcall("(*rel.positionalRelation).groupBy", 0) == r2 && lastcall("(*rel.positionalRelation).groupBy", 1) == rightKey)
+//@   loop 0 invariant grp: (lastcall("(*rel.positionalRelation).groupBy", 0) == r && lastcall("(*rel.positionalRelation).groupBy", 1) == leftKey) || (lastcall("(*rel.positionalRelation).groupBy", 0) == r2 && lastcall("(*rel.positionalRelation).groupBy", 1) == rightKey)
 //@ func (*positionalRelation).Join$1(r2, leftKey, rightKey, leftOutput, rightOutput)
 //@   tags C04
 //@   trusted
